@@ -510,7 +510,7 @@ O2_Http(a) ==
          nonce == IF RCup THEN st.ids.nonce + 1 ELSE st.ids.nonce IN
      /\ Emit(<<HttpLine(kind, n, st.rq.apps, p, rid, sid, nonce, a, st.clk)>>)
      /\ script' = script \o Ans("http." \o kind, n, a)
-     /\ st' = [st EXCEPT !.pc = "OP", !.op = [kind |-> "http." \o kind, n |-> n, next |-> "O4", ctl |-> st.inWfr, jumped |-> FALSE],
+     /\ st' = [st EXCEPT !.pc = "OP", !.op = [kind |-> "http." \o kind, n |-> n, next |-> "O4", ctl |-> FALSE, jumped |-> FALSE],
                          !.cnt[kind] = n, !.ids.rid = rid, !.ids.nonce = nonce,
                          !.ids.sid = IF kind = "ping" THEN @ + 1 ELSE @,
                          !.rq.ans = a, !.rq.res = ExResult(a)]
@@ -889,7 +889,7 @@ InCheckPc == st.pc \notin {"B0", "R4", "R5", "R7", "R8", "R11", "R12", "W1", "W2
                 /\ ~(st.pc \in {"O2", "OP", "O4"} /\ st.rq.kind = "ping")
 CtlSendBusy(src) ==
   /\ (st.pc = "OP" \/ (~Bounded /\ InCheckPc)) /\ RMode = "start" /\ (~Bounded \/ st.nCtl < MaxCtl)
-  /\ (IF Bounded THEN ~st.op.ctl ELSE ~st.inWfr)
+  /\ ~st.inWfr /\ (~Bounded \/ ~st.op.ctl)
   /\ LET id == st.ids.req + 1 IN
      /\ Emit(<<Stamp([k |-> "ctl.send", req |-> id, h |-> 0, src |-> src], st.clk),
                Stamp([k |-> "ctl.reply", req |-> id, ans |-> "already"], st.clk)>>)
@@ -899,6 +899,15 @@ CtlSendBusy(src) ==
                          !.op.n = IF st.op.kind = "idle" THEN @ + 1 ELSE @,
                          !.cnt.idle = IF st.op.kind = "idle" THEN @ + 1 ELSE @,
                          !.ck.optSrc = IF src = "ondemand" THEN "ondemand" ELSE @]
+
+\* a request that arrives while a ping of the reboot wait is in flight is not heard until the ping is done (:482-486:
+\* the ping is awaited inside the select's branch): it waits in the channel
+CtlSendPing(src) ==
+  /\ st.pc = "OP" /\ st.inWfr /\ RMode = "start" /\ (~Bounded \/ (st.nCtl < MaxCtl /\ ~st.op.ctl))
+  /\ LET id == st.ids.req + 1 IN
+     /\ Emit(<<Stamp([k |-> "ctl.send", req |-> id, h |-> 0, src |-> src], st.clk)>>)
+     /\ script' = script \o Stim(st.op.kind, st.op.n, [s |-> "ctl", h |-> 0, src |-> src])
+     /\ st' = [st EXCEPT !.ids.req = id, !.nCtl = @ + 1, !.op.ctl = TRUE, !.ctlq = Append(@, [req |-> id, src |-> src])]
 
 (***************************************************************************)
 (* R11 / W*: waiting for reboot (:439-510).  R12: Idle.                    *)
@@ -1012,6 +1021,7 @@ Next ==
   \/ \E a \in PlanAnswers : P9_Plan(a)
   \/ P9r \/ P9e_PlanFailed \/ OpDone
   \/ \E s \in CtlSources : CtlSendBusy(s)
+  \/ \E s \in CtlSources : CtlSendPing(s)
   \/ \E a \in StartAnswers : P10_CanStart(a)
   \/ P10r \/ P10d_NotNow \/ P11_Started \/ P12_FirstSeen
   \/ (st.pc = "P13" /\ \E r \in ResultSeqs(Len(Offered(st.ck.doc))) : \E p \in ProgressSeqs : \E pm \in ProgressModes : P13_InstallM(r, p, pm))
